@@ -18,7 +18,6 @@ import (
 	"errors"
 	"fmt"
 	"strings"
-	"unicode"
 	"unicode/utf8"
 )
 
@@ -130,7 +129,9 @@ func ParseQuotes(start, end string) (q QuoteInfo, nStart, nEnd int, err error) {
 		hasNewline := false
 		for i > 0 {
 			r, size := utf8.DecodeLastRuneInString(end[:i])
-			if r == '\n' || !unicode.IsSpace(r) {
+			// Only blanks can indent the closing delimiter: the scanner does
+			// not treat other Unicode space characters as white space.
+			if r == '\n' || !(r == ' ' || r == '\t' || r == '\r') {
 				hasNewline = r == '\n'
 				break
 			}
@@ -261,7 +262,7 @@ func (q QuoteInfo) Unquote(s string) (string, error) {
 // The scanner ends a multiline literal at such a delimiter, however the line
 // is indented, so the text that follows cannot be part of the literal.
 func closesLineEarly(s string, q QuoteInfo) bool {
-	s = strings.TrimLeft(s, " \t")
+	s = strings.TrimLeft(s, " \t\r")
 	return hasClosingDelimPrefix(s, q) && len(s) > int(q.numChar)+q.numHash
 }
 
